@@ -20,6 +20,7 @@ Two families, both judged on the real code only (no Lean model is consulted here
 
 CHARGES = tuple(range(-4, 5))
 HS = (0, 1, 2, 3, 4, None)
+PACK_HS = (0, 1, 2, 3, 4, 5, 6, None)
 
 
 _EXT = []
@@ -79,7 +80,7 @@ def words3(q, m):
     return b3, m3
 
 
-def state_grid_cases(sym, cross=True):
+def state_grid_cases(sym, cross=True, pack_all_h=False):
     """every isotope|None x charge x radical of `sym` as a one-atom molecule (hydrogen count rotating 0..4/None) against its own
     query atom, the query atoms differing in exactly one field, and the wildcards; yields one dict per (molecule, query) pair."""
     from chython import MoleculeContainer
@@ -110,13 +111,6 @@ def state_grid_cases(sym, cross=True):
                 except Exception as e:
                     yield dict(base, query='build', qstate=None, expect=True, acc='raises ' + type(e).__name__, ref=None, bits3=None, mask3=None)
                     continue
-                # the same state through the pack format (5-bit isotope offset, 4-bit charge, radical bit, 3-bit hydrogens, 7 = unknown)
-                try:
-                    u = MoleculeContainer.unpack(m.pack()).atom(1)
-                    got = (u.isotope, u.charge, u.is_radical, u.implicit_hydrogens, u.atomic_number)
-                except Exception as e:
-                    got = 'raises ' + type(e).__name__
-                yield dict(base, query='pack-unpack', qstate=None, expect=(iso, c, r, h, cls.atomic_number.fget(None)), acc=got, ref=None, bits3=None, mask3=None)
                 tests = [('own', Q(iso, c, r), True)]
                 if cross:
                     tests.append(('any-isotope', Q(None, c, r), True))
@@ -137,6 +131,16 @@ def state_grid_cases(sym, cross=True):
                     acc, ref = _both(q, m)
                     b3, m3 = words3(q, m) if qstate is not None else (None, None)
                     yield dict(base, query=name, qstate=qstate, expect=expect, acc=acc, ref=ref, bits3=b3, mask3=m3)
+                # the same state through the pack format (5-bit isotope offset, 4-bit charge, radical bit, 3-bit hydrogens, 7 = unknown);
+                # after the matcher tests (the compiled structure is cached on the molecule), hydrogens 0..6/None of its own rotation
+                for hp in (PACK_HS if pack_all_h else (PACK_HS[k % len(PACK_HS)],)):
+                    m._atoms[1]._implicit_hydrogens = hp
+                    try:
+                        u = MoleculeContainer.unpack(m.pack()).atom(1)
+                        got = (u.isotope, u.charge, u.is_radical, u.implicit_hydrogens, u.atomic_number)
+                    except Exception as e:
+                        got = 'raises ' + type(e).__name__
+                    yield dict(base, h=hp, query='pack-unpack', qstate=None, expect=(iso, c, r, hp, cls.atomic_number.fget(None)), acc=got, ref=None, bits3=None, mask3=None)
 
 
 def grid_detail(x):
@@ -153,9 +157,9 @@ def grid_pred(x):
     return 'pack-state-grid' if x['query'] == 'pack-unpack' else 'matcher-state-grid'
 
 
-def state_grid_predicates(sym, cross=True):
+def state_grid_predicates(sym, cross=True, pack_all_h=False):
     """yields (predicate, detail, ok): both REAL matchers give the documented answer for the pair; the pack image is the state"""
-    for x in state_grid_cases(sym, cross):
+    for x in state_grid_cases(sym, cross, pack_all_h):
         _, detail, ok = grid_detail(x)
         yield (grid_pred(x), detail, ok)
 
@@ -395,6 +399,7 @@ def random_history(cls, rng, length):
 def molecule_history(cls, full=False):
     """the same re-labelling through a container: `molecular_mass` read, `with mol: atom.isotope = n`, read again; the copy, the
     pack/unpack image and a rebuilt molecule must weigh what the tables say."""
+    import pickle
     from chython import MoleculeContainer
     from chython.periodictable import H
     _ext()
@@ -417,6 +422,8 @@ def molecule_history(cls, full=False):
             tests += [('molecular_mass', lambda: m.molecular_mass, want), ('copy().molecular_mass', lambda: m.copy().molecular_mass, want)]
             if k % 3 == 1 or k == len(seq) - 1:
                 tests.append(('unpack(pack()).molecular_mass', lambda: MoleculeContainer.unpack(m.pack()).molecular_mass, want))
+                tests.append(('pickle round trip molecular_mass', lambda: pickle.loads(pickle.dumps(m)).molecular_mass, want))
+                tests.append(('pickled atom atomic_mass', lambda: pickle.loads(pickle.dumps(m.atom(1))).atomic_mass, table_mass(cls, iso)))
         for name, get, want in tests:
             try:
                 got = get()
